@@ -384,7 +384,26 @@ L5Progs == << Prog(<<For(<<"x">>, "values", SetN(<<SB, SC, SA>>), Log(Var("x")))
                      Log(Call(Var("f"), << >>))>>),
               Prog(<<For(<<"x">>, "values", SetN(<<I(10), I(9), I(100), I(-5), I(-10), I(2)>>), Log(Var("x"))),
                      Log(Compr("list", Var("x"), "x", "values", SetN(<<I(10), I(9), I(100), I(-5), I(-10), I(2)>>), None)),
-                     Log(SetN(<<I(10), I(9), I(100), I(-5), I(-10), I(2)>>))>>) >>
+                     Log(SetN(<<I(10), I(9), I(100), I(-5), I(-10), I(2)>>))>>),
+              \* a comprehension re-entered by recursion from its source, its value and its condition, beside the
+              \* explicit loop: every evaluation has loop variables (and sees parameters) of its own
+              Prog(<<Def("f", Fn(<<Param("n")>>, If2(Bin("==", Var("n"), I(0)), ListN(<<I(0), I(1)>>),
+                                  Compr("list", Bin("+", Var("x"), Var("n")), "x", "values",
+                                        Call(Var("f"), <<Arg(Bin("-", Var("n"), I(1)))>>), None)))),
+                     Log(Call(Var("f"), <<Arg(I(3))>>)), Log(Call(Var("f"), <<Arg(I(1))>>))>>),
+              Prog(<<Def("g", Fn(<<Param("n")>>, If2(Bin("==", Var("n"), I(0)), ListN(<<I(5)>>),
+                                  Compr("list", ListN(<<Var("x"), Var("n"), Index(Call(Var("g"), <<Arg(Bin("-", Var("n"), I(1)))>>), I(0))>>), "x", "values",
+                                        ListN(<<Var("n"), Bin("*", Var("n"), I(10))>>), None)))),
+                     Log(Call(Var("g"), <<Arg(I(2))>>))>>),
+              Prog(<<Def("h", Fn(<<Param("n")>>, If2(Bin("==", Var("n"), I(0)), ListN(<< >>),
+                                  Compr("list", ListN(<<Var("x"), Var("n")>>), "x", "values", ListN(<<Var("n"), I(7)>>),
+                                        Bin("==", Call(Var("h"), <<Arg(Bin("-", Var("n"), I(1)))>>), Call(Var("h"), <<Arg(Bin("-", Var("n"), I(1)))>>)))))),
+                     Log(Call(Var("h"), <<Arg(I(2))>>))>>),
+              Prog(<<Def("f", Fn(<<Param("n")>>, Do(<<If1(Bin("==", Var("n"), I(0)), Ret(ListN(<<I(0), I(1)>>))),
+                                                   Def("r", ListN(<< >>)),
+                                                   For(<<"x">>, "values", Call(Var("f"), <<Arg(Bin("-", Var("n"), I(1)))>>), Log(Bin("+", Var("x"), Var("n")))),
+                                                   ListN(<<Var("n")>>)>>))),
+                     Log(Call(Var("f"), <<Arg(I(2))>>))>>) >>
 L5Params == { <<"l5", k>> : k \in Idx(L5Progs) }
 
 LoopParams(u) == C2Params \cup L4Params \cup L5Params \cup L1Params \cup L0Params \cup L2Params \cup L3Params \cup W1Params \cup IfParams \cup CpParams \cup McParams
@@ -533,7 +552,28 @@ S6Progs == <<
   \* the loop variable lives in the frame that runs the loop and is gone afterwards
   Prog(<<Def("x", I(100)),
          Def("f", Fn(<< >>, Do(<<For(<<"x">>, "values", ListN(<<I(1), I(2)>>), Log(Var("x"))), Var("x")>>))),
-         Log(Call(Var("f"), << >>)), Log(Var("x"))>>) >>
+         Log(Call(Var("f"), << >>)), Log(Var("x"))>>),
+  \* the SAME use of a name evaluated again: every evaluation finds the nearest binding that exists at that moment
+  \* (a def executed in some calls only; a def executed after a closure over the frame was called; closures of one
+  \* maker whose frames do or do not bind the name)
+  Prog(<<Def("v", S("g")),
+         Def("f", Fn(<<Param("c")>>, Do(<<If1(Var("c"), Do(<<Def("v", S("a"))>>)), Var("v")>>))),
+         Log(Call(Var("f"), <<Arg(Lit(Bool(FALSE)))>>)), Log(Call(Var("f"), <<Arg(Lit(Bool(TRUE)))>>)),
+         Log(Call(Var("f"), <<Arg(Lit(Bool(FALSE)))>>)), Log(Var("v"))>>),
+  Prog(<<Def("v", S("g")),
+         Def("f", Fn(<< >>, Do(<<Def("r", Fn(<< >>, Var("v"))), Log(Call(Var("r"), << >>)), Def("v", S("a")), Log(Call(Var("r"), << >>)), Var("v")>>))),
+         Log(Call(Var("f"), << >>)), Log(Var("v")), Log(Call(Var("f"), << >>))>>),
+  Prog(<<Def("v", S("g")),
+         Def("f", Fn(<<Param("c")>>, Do(<<If1(Var("c"), Do(<<Def("v", S("a"))>>)), Fn(<< >>, Var("v"))>>))),
+         Def("a", Call(Var("f"), <<Arg(Lit(Bool(FALSE)))>>)), Def("b", Call(Var("f"), <<Arg(Lit(Bool(TRUE)))>>)),
+         Log(Call(Var("a"), << >>)), Log(Call(Var("b"), << >>)), Log(Call(Var("a"), << >>)),
+         Asg("v", S("b")), Log(Call(Var("a"), << >>)), Log(Call(Var("b"), << >>))>>),
+  Prog(<<Def("n", I(1)), Def("g", Fn(<< >>, Var("n"))), Def("h", Fn(<<Param("n")>>, Bin("+", Call(Var("g"), << >>), Var("n")))),
+         Log(Call(Var("h"), <<Arg(I(10))>>)), Log(Call(Var("g"), << >>)), Log(Call(Var("h"), <<Arg(I(20))>>))>>),
+  Prog(<<Def("v", I(1)),
+         Def("f", Fn(<<Param("c")>>, For(<<"x">>, "values", ListN(<<I(1), I(2), I(3)>>),
+                                         Do(<<If1(Bin("==", Var("x"), Var("c")), Do(<<Def("v", Bin("*", I(10), Var("x")))>>)), Log(Var("v"))>>)))),
+         Call(Var("f"), <<Arg(I(2))>>), Call(Var("f"), <<Arg(I(0))>>), Call(Var("f"), <<Arg(I(3))>>), Log(Var("v"))>>) >>
 S6Params == { <<"s6", k>> : k \in Idx(S6Progs) }
 
 \* <<"s7", k>>: destructuring assignment updates the nearest bindings (never creates), destructuring def
